@@ -104,6 +104,7 @@ func init() {
 		Explain: "Decides the rejection clause and the wiring of coordinate addressing: (S1) every non-error iteration path of Ltoi's coordinate loop has established coord >= 0 and coord < size, and the scalar branch accepts only 0; (S2) in At/SetAt/MaskAt/SetMaskAt every path to Get/Set/mask[...] has passed the arity check and the error check of the offset computation and uses exactly that offset, at() is Ltoi over the tensor's own Shape() and Strides(), maskAt() is at(); (K3/K1arms) the typed Get/Set/Memset arms of array and storage.Header use only accessors and assertions of their own label type and agree with their sibling arms; (S8) stride-routine selection by data order. " +
 			"Not decided: that CalcStrides* compute the right products and that Ltoi's sum is the rank in data order (value arithmetic); behaviour of the column-major converting constructor.",
 		Run: func(rc *rules.RC) {
+			rules.WC(rc, 15)
 			rules.S1(rc)
 			rules.S2(rc)
 			rules.S10(rc)
@@ -131,6 +132,8 @@ func init() {
 		Explain: "Decides: (S5) the shape-only slice calculator and the access-pattern slice calculator compute the same length term, which is ceil((end-start)/step); (S4) both validate through SliceDetails and refuse too many slices; (S7) every path of Reshape that reaches reshape() has established equal total size, is not a non-contiguous view and has materialised a pending lazy transpose, and reshape() only sets the shape and checks sanity; (O8) for the metadata-invariant clause: no two tensors own the same shape/strides slices (an alias lets one tensor's reshape or recycling zero the other's shape); (S12) AP.S marks sliced views NonContiguous (the flag Reshape's refusal keys on); (S14) every call of the lock-respecting AP.SetShape happens on a pattern unlocked on every path (otherwise the shape is silently not installed and size != product of shape); (L1) RepeatReuse accepts a destination only when its shape is the computed result shape. " +
 			"Not decided: that shape and strides address distinct in-bounds positions (a runtime invariant over values), that reshape preserves the flat sequence, repeat/concat calculators' arithmetic.",
 		Run: func(rc *rules.RC) {
+			rules.S10(rc)
+			rules.WC(rc, 15)
 			rules.S5(rc)
 			rules.S12(rc)
 			rules.S14(rc)
@@ -146,6 +149,7 @@ func init() {
 			"Not decided: that the permutation arithmetic (UnsafePermute, cycle following, iterator order) is the right permutation; the composition law.",
 		Quick: []string{"default", "inplacetranspose"},
 		Run: func(rc *rules.RC) {
+			rules.WC(rc, 15)
 			rules.T12(rc)
 			rules.T4(rc)
 			rules.T6(rc)
@@ -246,6 +250,7 @@ func init() {
 		Explain: "Decides: (LB) on every path to a BLAS call in MatMul/MatVecMul/Outer the lazy-transpose state and data order of each operand were branched on (a flag taken from the wrong operand, or a merged test, is reported); (L1) whether the operands' need for an iterator was consulted at all (it is not: known finding 15); (K1arms/K3) the float32/float64/complex64/complex128 arms call the same routine with the same argument pattern and the right precision letter; (O3/O7/O8) axes arguments are not mutated, only function-local tensors are recycled (handleIncr guard), scratch access patterns are not aliases of an operand's. " +
 			"(LD) on every feasible path of MatVecMul, MatMul, Outer and Inner each argument of the gemv/gemm/ger/dot call - transposition flags, dimensions, leading dimensions, buffers, operand order - is the one the operand's data order, lazy-transpose state and logical shape require under the row-major BLAS convention (term propagation along the path against a derived reference; 41 layout cases); (P2) the gateways and their callers do not write their operands (Dot and Outer do: known findings 13, 14). Not decided: the routines themselves (trusted by name), the reshape/permutation arithmetic of TensorMul/Contract, Dot's dispatch table beyond delegation, rounding.",
 		Run: func(rc *rules.RC) {
+			rules.RP(rc, nil, 4)
 			rules.LGuards(rc, "C09")
 			rules.LD(rc, 40)
 			rules.K3(rc, fileFilter("defaultengine_linalg.go", "dense_linalg.go"), 3, 12)
@@ -270,6 +275,7 @@ func init() {
 		Explain: "Decides: (LA) the flag that selects StackDense's raw block-copy path is true only if no operand requires an iterator (initial value and every loop path, by implication); (L1) the block-copy calls are guarded by it, and whether denseRepeat consults the operand's layout (it does not: known finding 32); (K1w) doViewStack1/2/4/8 are one algorithm; (E2) in every loop of the stacking/repetition code a cursor advanced at the end of the body is advanced on every continue path; (O2/O3) repeats and shapes passed by the caller are neither kept nor modified; (L1) Hstack stacks along axis 0 only for rank-1 receivers and RepeatReuse accepts a destination only of the computed shape; (LC/LF) a new raw block copy or flat element loop must be layout-guarded; (P2) concat/stack/repeat do not write their operands (denseConcat does: known finding 16). " +
 			"Not decided: block-copy offsets/strides of denseRepeat and denseSimpleStack, the slice-and-assign placement of denseConcat, data-order agreement of stacked operands (finding 19).",
 		Run: func(rc *rules.RC) {
+			rules.WC(rc, 15)
 			rules.LA(rc)
 			rules.LGuards(rc, "C10")
 			rules.LC(rc, 18)
@@ -300,6 +306,8 @@ func init() {
 		Explain: "Decides: (F1) for every dtype the .npy writer accepts, the reader maps its descriptor back to the same dtype (both tables and the reader's special cases evaluated statically for the int size of the configuration); (F2) GobEncode puts exactly the tensor's own Shape(), Strides(), order, triangle, mask, Data() on the wire and GobDecode reads the same sequence and installs every value; (F5) the rank-1 .npy header form is used only for rank-1 tensors; (L1/L4) whether WriteNpy, GobEncode and ToMat64 consult the layout before emitting raw storage (they do not: known findings 18, 28); (K3/K1arms) the typed arms of the readers (convFromStrs, ReadNpy) use their own label type and bit size; (LF) every counting loop that emits elements by flat index is a reviewed site or is guarded by the layout predicate and consults the data order (a new flat fast path in a writer is reported); (S14) the readers install the decoded shape through an unlocked access pattern on every path (decoding into a tensor already in use must not silently keep the old shape); (P2) the writers do not modify the tensor. " +
 			"Not decided: value-level round trip (number formatting/parsing, header padding arithmetic, CSV record assembly), protobuf/flatbuffers field mapping.",
 		Run: func(rc *rules.RC) {
+			rules.WC(rc, 15)
+			rules.O6opt(rc)
 			rules.F1(rc)
 			rules.F2(rc)
 			rules.P2(rc, func(k string) bool {
@@ -322,6 +330,7 @@ func init() {
 		Explain: "Decides: (L0) IsColMajor/IsRowMajor/HasSameOrder are what they claim and prepDataVV/VS/SV/Unary iterate whenever two participants disagree on data order; (L3) raw two-tensor accesses (Copy, Float32/64Engine.Add) and row-major-only kernels (ReduceFirst/ReduceLast) are conditioned on the data order; (L4) exporters into row-major formats consult it; (LB) BLAS gateways derive leading dimensions from each operand's order; (LD) every argument of every BLAS call is the one the operands' and the result's data order and lazy-transpose state require (all 32 layout cases of MatMul, 4 of MatVecMul, Outer, Inner); (T4) stride routines are selected by order in calcStrides and Transpose; (S10) the two stride calculators are one recurrence run in opposite directions; (S11) whoever flips the column-major bit recomputes the strides; (S12) AP.S picks the outermost axis by data order and marks column-major slices non-contiguous; (K3/K1arms) the typed arms of the BLAS gateways agree with each other (an operand swap in one precision is reported); (LC/LF) new raw copies / flat element loops must be layout-guarded and (LF) order-aware. Several of these fail on the pinned tree and are listed as known findings (17-19, 21, 40, 41). " +
 			"Not decided: block-size arithmetic of stack/concat under column-major (seed R2C16b is not caught); StackDense order agreement.",
 		Run: func(rc *rules.RC) {
+			rules.WC(rc, 15)
 			rules.L0(rc, nil)
 			rules.LGuards(rc, "C16")
 			rules.LD(rc, 40)
@@ -363,6 +372,9 @@ func init() {
 			"Not decided: anything about actual schedules; races inside sync.Pool/channels/BLAS (trusted); read-only-operand purity of the hand-written operations (findings 13, 14, 16 of DESIGN.md are listed there, not decided by this check).",
 		Assume: []string{"locks are taken on package-level mutexes by direct calls (the repo's only idiom); interprocedural lock holding is not modelled"},
 		Run: func(rc *rules.RC) {
+			rules.RP(rc, nil, 4)
+			rules.WC(rc, 15)
+			rules.O6opt(rc)
 			rules.P4(rc)
 			rules.P2(rc, nil, 70)
 			rules.O6(rc)
@@ -378,6 +390,9 @@ func init() {
 			"Not decided: corruption through backing arrays the API documents as shared; use-after-return inside one function (O9) beyond the rules above.",
 		Assume: []string{"interface calls resolve to the module's implementing types (CHA restricted to the module)", "flow-insensitive origin tracing through locals and captured variables (over-approximates aliases)"},
 		Run: func(rc *rules.RC) {
+			rules.RP(rc, nil, 4)
+			rules.WC(rc, 15)
+			rules.O6opt(rc)
 			oa := rules.O123(rc)
 			rules.O6(rc)
 			rules.O7(rc, oa)
@@ -392,6 +407,8 @@ func init() {
 			"Not decided: that the kernels compute Op (rules K1/K2 of C06/C11/C12 do), that iterators deliver matching coordinates (C05), the hand-written operations' value semantics.",
 		Assume: []string{"the summaries of E-level dispatch (destination = first non-scalar operand; Incr adds; Recv stores) and of storage.Copy/CopyIter/Fill, which rules K1arms/K2 check against the kernels", "sparse operands (swap) are outside the dense properties"},
 		Run: func(rc *rules.RC) {
+			rules.WC(rc, 15)
+			rules.O6opt(rc)
 			rules.M2(rc, nil, 40, 900)
 			rules.M7(rc, 300)
 			rules.L0(rc, nil)
